@@ -165,6 +165,11 @@ def run_machine(case, viol, probes):
     evals = 0
     for mv in case["moves"]:
         k = mv["m"]
+        if w_ref is not None and not np.isfinite(lse(w_ref)):
+            # every particle has weight 0 (e.g. `change` moved an observed uniform's support away): the collection is
+            # dead, its resampling probabilities are NaN and nothing after this point is defined - the history ends
+            probes["dead_collection"] = 1
+            break
         sig["move"] = k
         probes["move_" + k] = probes.get("move_" + k, 0) + 1
         if k == "init":
